@@ -310,14 +310,47 @@ fn s_fields(key: SBoxedStrategy<String>, min_vals: usize, max: usize) -> SBoxedS
         .sboxed()
 }
 
+/// Keywords and tfields as they occur in practice (CLDR bcp47 keys with typical values): the
+/// generated alphabet soup rarely forms a pair such as rg-uszzzz or ca-islamic-civil, and code
+/// that *interprets* a keyword (region override, subdivision, calendar, hour cycle ...) only
+/// reacts to those.
+pub const REAL_KEYWORDS: &[(&str, &[&str])] = &[
+    ("ca", &["buddhist"]), ("ca", &["gregory"]), ("ca", &["islamic", "civil"]), ("ca", &["islamic", "umalqura"]), ("ca", &["japanese"]), ("ca", &["iso8601"]),
+    ("cf", &["account"]), ("co", &["phonebk"]), ("co", &["pinyin"]), ("co", &["trad"]), ("co", &["search"]), ("co", &["standard"]),
+    ("cu", &["usd"]), ("cu", &["eur"]), ("dx", &["latn"]), ("em", &["emoji"]), ("em", &["text"]), ("fw", &["mon"]), ("fw", &["sun"]),
+    ("hc", &["h11"]), ("hc", &["h12"]), ("hc", &["h23"]), ("hc", &["h24"]), ("lb", &["strict"]), ("lb", &["loose"]), ("lw", &["breakall"]), ("lw", &["phrase"]),
+    ("ms", &["metric"]), ("ms", &["ussystem"]), ("ms", &["uksystem"]), ("mu", &["celsius"]), ("mu", &["fahrenhe"]),
+    ("nu", &["latn"]), ("nu", &["arab"]), ("nu", &["arabext"]), ("nu", &["thai"]), ("nu", &["hanidec"]), ("nu", &["fullwide"]),
+    ("rg", &["uszzzz"]), ("rg", &["gbzzzz"]), ("rg", &["dezzzz"]), ("rg", &["cnzzzz"]), ("rg", &["pkzzzz"]), ("rg", &["zzzzzz"]),
+    ("sd", &["usca"]), ("sd", &["gbsct"]), ("sd", &["usny"]), ("ss", &["none"]), ("ss", &["standard"]),
+    ("tz", &["usnyc"]), ("tz", &["gblon"]), ("tz", &["utc"]), ("tz", &["uslax"]), ("va", &["posix"]),
+    ("ka", &["shifted"]), ("ka", &["noignore"]), ("kb", &["true"]), ("kb", &["false"]), ("kc", &["true"]), ("kf", &["upper"]), ("kf", &["lower"]), ("kf", &["false"]),
+    ("kh", &["true"]), ("kk", &["true"]), ("kn", &["true"]), ("kn", &["false"]), ("kn", &[]), ("kr", &["digit", "latn", "space"]), ("kr", &["currency", "symbol"]),
+    ("ks", &["level1"]), ("ks", &["level2"]), ("ks", &["identic"]), ("kv", &["punct"]), ("kv", &["space"]), ("vt", &["0061", "0062"]),
+];
+pub const REAL_TFIELDS: &[(&str, &[&str])] = &[
+    ("m0", &["ungegn"]), ("m0", &["bgn"]), ("m0", &["alaloc"]), ("m0", &["iso"]), ("s0", &["ascii"]), ("s0", &["accents"]), ("d0", &["fwidth"]), ("d0", &["hwidth"]),
+    ("d0", &["npinyin"]), ("d0", &["ascii"]), ("i0", &["handwrit"]), ("i0", &["pinyin"]), ("i0", &["wubi"]), ("k0", &["osx"]), ("k0", &["windows"]), ("k0", &["dvorak"]),
+    ("k0", &["colemak"]), ("k0", &["101key"]), ("k0", &["android"]), ("t0", &["und"]), ("h0", &["hybrid"]), ("x0", &["foo", "bar"]),
+];
+
+fn s_real(pool: &'static [(&'static str, &'static [&'static str])], max: usize) -> SBoxedStrategy<Vec<(String, Vec<String>)>> {
+    vec(proptest::sample::select(pool.to_vec()), 1..=max)
+        .prop_map(|v| {
+            let mut seen = std::collections::BTreeSet::new();
+            v.into_iter().filter(|(k, _)| seen.insert(*k)).map(|(k, vs)| (k.to_string(), vs.iter().map(|x| x.to_string()).collect())).collect()
+        })
+        .sboxed()
+}
+
 /// Well-formed locale AST (no duplicate keys; tfields carry >= 1 value)
 pub fn s_ast() -> SBoxedStrategy<Ast> {
     (
         s_langast(3),
         prop_oneof![2 => Just(vec![]), 3 => vec(s_value(), 0..=3)],
-        prop_oneof![1 => Just(vec![]), 3 => s_fields(s_key(), 0, 3)],
+        prop_oneof![2 => Just(vec![]), 6 => s_fields(s_key(), 0, 3), 1 => s_real(REAL_KEYWORDS, 3)],
         proptest::option::weighted(0.35, s_langast(2)),
-        prop_oneof![1 => Just(vec![]), 2 => s_fields(s_tkey(), 1, 3)],
+        prop_oneof![3 => Just(vec![]), 6 => s_fields(s_tkey(), 1, 3), 1 => s_real(REAL_TFIELDS, 2)],
         prop_oneof![2 => Just(vec![]), 1 => vec(s_private(), 1..=4)],
         any::<bool>(),
         prop_oneof![2 => Just(0u64), 2 => any::<u64>(), 1 => Just(u64::MAX)],
@@ -591,6 +624,37 @@ pub fn s_near_miss_langid() -> SBoxedStrategy<Vec<u8>> {
             b
         })
         .sboxed()
+}
+
+/// Inputs one character away from `b` (the last alphanumeric byte of the last three subtags and
+/// of the first one, bumped to the next letter / digit): what a cache, a memo or a fast path
+/// keyed on part of the input would confuse with `b`. Evaluated right before `b` on the same
+/// thread, they make hidden state observable to an oracle that knows the answer for `b`.
+pub fn neighbour_bytes(b: &[u8]) -> Vec<Vec<u8>> {
+    fn bump(c: u8) -> u8 {
+        match c {
+            b'a'..=b'y' | b'A'..=b'Y' | b'0'..=b'8' => c + 1,
+            b'z' => b'a',
+            b'Z' => b'A',
+            b'9' => b'0',
+            _ => c,
+        }
+    }
+    let mut ends = vec![];
+    for i in 0..b.len() {
+        if b[i].is_ascii_alphanumeric() && (i + 1 == b.len() || !b[i + 1].is_ascii_alphanumeric()) {
+            ends.push(i);
+        }
+    }
+    let mut out: Vec<Vec<u8>> = vec![];
+    for &i in ends.iter().rev().take(3).chain(ends.first()) {
+        let mut c = b.to_vec();
+        c[i] = bump(c[i]);
+        if c != b && !out.contains(&c) {
+            out.push(c);
+        }
+    }
+    out
 }
 
 /// G4: weighted raw bytes
